@@ -4,7 +4,7 @@
 From Coq Require Import List Bool NArith ZArith Lia Arith.
 From Coq.Strings Require Import Byte.
 From Verif Require Import Base.Bytes Idl.Ast Idl.AstFacts Idl.Lex Idl.LexFacts Idl.Parse Idl.Print Idl.PrintFacts Idl.Dump Idl.DumpFacts.
-From Verif Require Import Idl.DumpLexFacts.
+From Verif Require Import Idl.DumpLexFacts Idl.DumpNumFacts.
 Import ListNotations.
 
 Lemma piece_toks_app a b : piece_toks (a ++ b) = piece_toks a ++ piece_toks b.
@@ -40,9 +40,10 @@ Lemma cEA0 ps ts : conc ps ts -> conc (POptEmptyAnnos :: ps) ts.
 Proof. intro H. apply (conc_cons POptEmptyAnnos ps [] ts); [constructor | exact H]. Qed.
 
 (* ================================================================ spellings of numbers *)
-Definition z_spell (z : Z) : bool :=
-  match int_value (print_Z z) with Some z' => Z.eqb z z' | None => false end.
-Definition id_spell (z : Z) : bool := Z.eqb (field_id_value (print_Z z)) z.
+(* integers are written in decimal by fmt.Sprintf("%d") and read back exactly when they fit
+   (Idl/DumpNumFacts.v): constants and enum values in 64 bits, field ids in 32 bits *)
+Definition z_spell (z : Z) : bool := in_i64 z.
+Definition id_spell (z : Z) : bool := in_i32 z.
 (* a double text read as an integer constant must be a valid one *)
 Definition dbl_spell (text : bytes) : bool :=
   match num_token text with
@@ -74,10 +75,7 @@ Section Spell.
 End Spell.
 
 Lemma z_spell_int z : z_spell z = true -> int_value (print_Z z) = Some z.
-Proof.
-  unfold z_spell. destruct (int_value (print_Z z)) as [z'|]; [|discriminate].
-  intro H. apply Z.eqb_eq in H. subst. reflexivity.
-Qed.
+Proof. apply int_value_print_Z. Qed.
 
 (* ================================================================ the tokens are a spelling of the view *)
 Section Conc.
@@ -252,7 +250,7 @@ Section Conc.
     destruct f as [id name req t d an cm]. cbn [fd_id fd_type fd_default fd_annos fd_req] in *.
     unfold protos_field, field_pieces, set_req, view_field.
     cbn [fd_id fd_name fd_req fd_type fd_default fd_annos fd_comments].
-    assert (Hid : field_id_value (print_Z id) = id) by (apply Z.eqb_eq; assumption).
+    assert (Hid : field_id_value (print_Z id) = id) by (apply field_id_value_print_Z; assumption).
     assert (Hidc : forall ps' ts', conc ps' ts' ->
               conc ((if Z.eqb id (implicit_id prev) then [POptFid id] else [PFid id]) ++ ps')
                    (TInt (print_Z id) :: TPunct p_colon :: ts')).
@@ -618,7 +616,8 @@ Section FileLevel.
               a number shape, no recorded comments
      pd_ok    the AST has the shape the parser builds (annotation keys grouped, include paths
               distinct and not empty, no id equal to the NOTSET sentinel, types well formed in
-              the sense of Idl/Print.v), numbers are spelled so that they read back
+              the sense of Idl/Print.v, ids in i32 and integer values in i64; a double text that
+              reads as an integer is a valid integer constant)
      wf_file  the view is a file the token grammar can express (Idl/Print.v): no keyword used
               as a name, ids in i32, values in i64, containers named map / set / list *)
   Definition dump_ok (a : file) : bool :=
